@@ -673,6 +673,20 @@ def f5_defs(tier):
             ),
         )
     )
+    # retry on a join: 1 task (another branch can arrive while the task is staged for retry)
+    out.append(
+        (
+            "retry-on-join1",
+            WF(
+                {
+                    "a": T([N(S, ["b0", "b1"])]),
+                    "b0": T([N(S, "j")]),
+                    "b1": T([N(S, "j")]),
+                    "j": T(join=1, retry={"count": 1}),
+                },
+            ),
+        )
+    )
     # retry inside a loop
     lw = loop_wf(1, 1)
     lw["tasks"]["l0"]["retry"] = {"count": 1}
